@@ -3,7 +3,7 @@ from . import COMMON_TB, NOTE
 PROP = {
     "modules": ["Proofs.C17"],
     "streams": [{"name": "numf"}, {"name": "filter"}, {"name": "conv", "shards": 8}],
-    # the json/inspect/type cases of the filter stream report a panic as C01 and a dependence on map insertion order as C02
+    # the json/inspect/type and date cases of the filter stream report a panic as C01 and a dependence on map insertion order as C02
     "also": ["C01", "C02"],
     "rule": "numf: every pair from {-12..12, +-2^53, +-(2^53-1), 10^15, k/4 (k=-12..12), \"3\", \"2.5\", \"-1\", \" 1\", \"x\", \"\", nil, true} "
             "x every numeric filter (exhaustive), every integer kind of divisor/zero, whole results around fmt's exponent "
@@ -15,7 +15,17 @@ PROP = {
             "need escaping, typed values; map types json.Marshal rejects; ordered maps, keyed maps, structs, ranges, drops, "
             "pointers, times around the year 0 / 9999 limits) and on random value trees with random strings and floats, each with an oracle on the real result "
             "(the text parses back with encoding/json to the logical value of the receiver; identical for 4 insertion orders of "
-            "every map); conv: values.Convert to the 7 parameter "
+            "every map); date / time printing / ParseDate: every conversion character (a-z A-Z + %) on a universe of 240 instants (epoch, "
+            "negative instants, leap days, century and 400-year rules, year boundaries, 1999-12-31 23:59:59, 2038, the years -1 / 0 / 1 / "
+            "9999 / 10000, midnight and noon, every weekday and month, ISO-week corner years, |u| up to 2^62), conversion x flag "
+            "(none - _ 0 ^ # : :: :::) x width (none 1 3 6 12) x modifier (none E) on five instants, a fixed family of 280 format "
+            "strings (regexp corner cases, widths around the model bound 1024 and fmt's NOVERB bound) and of receivers (nil, 100 strings: "
+            "the five all-digit layouts with fields in and out of range, near misses, the other layouts; every value of the universe), "
+            "random formats x random instants, random all-digit strings, {{ t }} / fmt.Sprint / Convert to string of times alone and "
+            "inside containers, Convert of strings to time, each with an oracle on the real result (%Y-%m-%d %H:%M:%S, {{ t }} and "
+            "fmt.Sprint parse back with time.Parse to the instant; %s is the unix time; %j %m %d %H %M %S %u %w %V %U %W %I in range; the "
+            "default format equals time.Format; an all-digit string denotes the instant time.Date computes or is a TypeError); "
+            "conv: values.Convert to the 7 parameter "
             "types, fmt.Sprint and {{ x }} on the universe, random value trees and random float64/float32 bit patterns; a case "
             "is non-trivial when the real code returns a value (not a TypeError); distinct by case line",
     "trusted_base": COMMON_TB + [
@@ -33,7 +43,16 @@ PROP = {
         "compact, map, uniq return nil slices; the value universe does not distinguish them), inspect of a value json.Marshal rejects (%#v); "
         "type of structs, drops and nil pointers (Go type names that are not part of the value)",
         "outside the model (counted as unmodelled, not compared): results Go signs as -0, overflow to +-Inf, NaN (round with |places| > 308), "
-        "float->int conversions outside int64, ParseFloat's inf/nan/hex/underscore spellings, pointers and time.Time in fmt",
+        "float->int conversions outside int64, ParseFloat's inf/nan/hex/underscore spellings, pointers in fmt",
+        "Liquid/Time.lean, Liquid/Filters/Date.lean and the time cases of Sprint.lean / Convert.lean describe time.Time values in UTC with "
+        "whole seconds (the harness realises a time binding as time.Unix(u, 0).UTC()): the proleptic Gregorian calendar of package time "
+        "(Go 1.23), time.Format for the layouts of writeObject and String(), tuesday.Strftime v1.0.3 (regexp, conversions, flags, widths, "
+        "fmt's %d padding) and values.ParseDate on the five all-digit layouts, with time.Local = UTC: the harness sets time.Local = time.UTC "
+        "at start-up and check runs it under TZ=UTC; checked by the filter stream on every run (and by robust, render, determ on whole templates)",
+        "date / times outside the model (counted as unmodelled): a string receiver that is not one of the five all-digit layouts "
+        "(the other 20 layouts of ParseDate, and `now`, which reads the clock), instants beyond +-2^62 seconds (Go's int64/uint64 "
+        "arithmetic wraps near the ends of the range), strftime widths above 1024 (from 10 000 010 on fmt prints %!(NOVERB)), "
+        "fmt.Sprint of a time below an unexported struct field (a drop inside a container: printed as the struct {wall ext loc})",
     ],
 }
 
@@ -45,7 +64,11 @@ TEXT = {
             "ceil/floor return ints n with n <= x < n+1 / n-1 < x <= n; round is floor(x*10^p + 1/2)/10^p with error at most half a unit "
             "of the last place; plus-then-minus and times-then-divided_by are the identity; a string receiver that spells a number "
             "behaves as that number and any other string (receiver or operand) is a TypeError; a whole float below 10^21 is printed "
-            "as plain digits. An independent big.Rat oracle checks exactness, required errors and plain printing on the real code "
+            "as plain digits. Times (Proofs.DateFilter): day number <-> civil date are inverse to each other on all integers / all valid "
+            "proleptic Gregorian dates, with month, day, clock and weekday fields in range; date never panics and Strftime never errs; "
+            "t | date: f is Strftime(f, t), without an argument f is '%a, %b %d, %y'; '%Y-%m-%d' of a year 0..9999 is dddd-dd-dd spelling "
+            "year, month, day, and '%Y-%m-%d %H:%M:%S' is read back by ParseDate as the instant itself and is what {{ t }} prints "
+            "before ' +0000'; '%s' is the unix time (read back by ParseInt); '%%' is '%'. An independent big.Rat oracle checks exactness, required errors and plain printing on the real code "
             "for all universe pairs and random pipelines; the model is compared with the real code on every case.",
     "design_ref": "DESIGN.md 6 C17",
     "note": NOTE + "Defects found and repaired: modulo by zero printed NaN (D17), divided_by rejected uint/uint64 divisors (D14), whole "
